@@ -28,6 +28,17 @@ def main():
         if not u and not w:
             print("  is_exact_match:", p.is_exact_match(v))
         return 1 if got != rp["expect_match"] else 0
+    if kind in ("contract", "contract_call"):
+        from pvc import bex_contract
+        import contracts
+        if kind == "contract":
+            r = bex_contract.replay(rp["qualname"], rp["arg_descs"])
+            print("contract of", rp["qualname"], "->", r)
+            return 1 if r.get("reproduced") else 0
+        args = {k: eval(v, {**ns, "object": bex_contract.specrt.Witness}) for k, v in rp["args"].items()}
+        r = bex_contract.check_call(rp["qualname"], contracts.ALL[rp["qualname"]], args)
+        print("contract of", rp["qualname"], "on", rp["args"], "->", r)
+        return 0 if r["ok"] else 1
     if kind == "python":
         loc = {}
         exec(rp["code"], ns, loc)
